@@ -73,7 +73,7 @@ try:
     for t in tests:
         d = os.path.join(out, t["id"])
         tp = os.path.join(d, "trace.ndjson")
-        f, _, _, _ = vlib.validate_trace(tp, ["NoPanic", "Conf_C03", "Conf_C07", "Conf_C15"], w + "/val-" + t["id"])
+        f, _, _, _ = vlib.validate_trace(tp, ["NoPanic", "Conf_C03", "Conf_C07", "Conf_C15", "Conf_C02D"], w + "/val-" + t["id"])
         if f:
             print("dropped", t["id"], f[0].invariant)
             shutil.rmtree(d)
